@@ -19,7 +19,17 @@
           MODEL `calls=<n> queued=<n> dropped=<n> disp=<n> drop=<n> wd=<a,b,..> results=<n> law=ok`
           SPEC  same line with drop / wd as the returned outcomes demand (known = 0: no class left after 93cdf08)
         otherwise (overflow depends on the real interleaving): MODEL `calls=<n> law=ok`, SPEC `-`;
-        the harness checks the laws on the observed outcomes and counters (`!` on a breach). *)
+        the harness checks the laws on the observed outcomes and counters (`!` on a breach).
+     G <pool> <nworkers> <cap> <pkt> ... / <pkt> ...          (result consumer gone; one dispatcher, cap > all calls)
+        the packets before `/` are dispatched and analysed while the receiver of the results is alive; at `/` the
+        receiver is dropped (the pool is NOT shut down); afterwards a worker that analyses a packet yielding a result
+        finds the result channel closed and exits, its queue becomes disconnected: in the model every later try_send
+        to it is answered `full = true` (PoolAcct: "the answer of the channel is an input of the transition ...
+        Disconnected").  The harness waits for the exit after every Queued result-yielding packet by repeating that
+        packet until dispatch answers Dropped (probe calls; recorded, checked by the `!` laws, and subtracted from the
+        printed counters so that the line is the one of the scripted calls alone).
+          MODEL `calls=<n> out=<Q|D per scripted call> disp=<n> drop=<n> wd=<a,b,..> resA=<results before />` ++
+                ` gone=<0|1 per worker> law=ok`,   SPEC same line with drop / wd as the returned outcomes demand *)
 From Coq Require Import List NArith Bool Arith.
 From Coq Require Import Strings.Byte.
 From HN Require Import Base.Bytes Model.Filter Model.RawFrame Model.Hash Model.PoolAcct Spec.HashSpec.
@@ -120,6 +130,53 @@ Definition q_line (k : pool_kind) (nworkers : nat) (x : pstate pkt unit) (spec :
   bs " results=" ++ show_N (n_results k x) ++
   bs " law=" ++ (if spec then bs "ok" else if law_b k nworkers x then bs "ok" else bs "BROKEN").
 
+(* ---------------- T2, result consumer gone (G) ---------------- *)
+(* pool state, worker exited?, outcomes of the scripted calls (Queued?), newest first *)
+Definition gst := (pstate pkt unit * list bool * list bool)%type.
+
+Definition last_queued (x : pstate pkt unit) : bool :=
+  match rev (rets pkt unit x) with r :: _ => r_queued pkt r | [] => false end.
+
+(* dispatch(p) run to completion; the channel of an exited worker refuses (Disconnected), otherwise bounded FIFO.
+   rx_gone: the receiver of the results has been dropped -- a worker that analyses a result-yielding packet
+   (after everything queued before it) fails to send and exits *)
+Definition g_dispatch (k : pool_kind) (cap : nat) (rx_gone : bool) (st : gst) (p : pkt) : gst :=
+  let '(x, dead, outs) := st in
+  let w := worker_of pkt pk_shard p in
+  let full := nth w dead false || (cap <=? length (nth w (queues pkt unit x) []))%nat in
+  let x1 := pstep pkt unit pk_shard pk_analyse k x (Call 0%nat p) in
+  let x2 := fold_left (fun y _ => pstep pkt unit pk_shard pk_analyse k y (Tick 0%nat full)) (seq 0 4) x1 in
+  let q := last_queued x2 in
+  if rx_gone && q && pk_yields k p then
+    (drain pkt unit pk_analyse (length (nth w (queues pkt unit x2) [])) x2 w, upd dead w true, q :: outs)
+  else (x2, dead, q :: outs).
+
+Definition g_run (k : pool_kind) (nworkers cap : nat) (a b : list pkt) : gst * N :=
+  let x0 := init pkt unit nworkers 1 tt in
+  let '(xa, d, oa) := fold_left (g_dispatch k cap false) a (x0, repeat false nworkers, []) in
+  let xa' := drain_all pkt unit pk_analyse nworkers xa in
+  let '(xb, d', ob) := fold_left (g_dispatch k cap true) b (xa', d, oa) in
+  ((drain_all pkt unit pk_analyse nworkers xb, d', ob), n_results k xa').
+
+Definition show_outs (o : list bool) : bytes :=
+  match o with [] => bs "-" | _ => map (fun q : bool => if q then "Q"%byte else "D"%byte) (rev o) end.
+
+Definition g_line (k : pool_kind) (nworkers : nat) (r : gst * N) (spec : bool) : bytes :=
+  let '((x, dead, outs), resA) := r in
+  bs "calls=" ++ show_N (calls pkt unit x) ++ bs " out=" ++ show_outs outs ++
+  bs " disp=" ++ show_N (c_dispatched pkt unit x) ++
+  bs " drop=" ++ show_N (if spec then n_dropped pkt unit x else c_dropped pkt unit x) ++
+  bs " wd=" ++ show_list (if spec then map (dropped_at pkt unit x) (seq 0 nworkers) else c_wdropped pkt unit x) ++
+  bs " resA=" ++ show_N resA ++
+  bs " gone=" ++ map (fun g : bool => if g then "1"%byte else "0"%byte) dead ++
+  bs " law=" ++ (if spec then bs "ok" else if law_b k nworkers x then bs "ok" else bs "BROKEN").
+
+Fixpoint split_slash (ts acc : list bytes) : option (list bytes * list bytes) :=
+  match ts with
+  | [] => None
+  | t :: r => if bytes_eqb t (bs "/") then Some (rev acc, r) else split_slash r (t :: acc)
+  end.
+
 Definition run_line (l : bytes) : bytes :=
   match fields l with
   | [op; c; n; h] =>
@@ -153,6 +210,19 @@ Definition run_line (l : bytes) : bytes :=
                         (if law_b k nworkers x then bs "ok" else bs "BROKEN")) (bs "-") false
             | _, _, _, _ => bad end
         | _ => bad end
+      else if bytes_eqb op (bs "G") then
+        match rest with
+        | cap :: pts =>
+            match parse_kind c, read_N n, read_N cap, split_slash pts [] with
+            | Some k, Some nw, Some cp, Some (ta, tb) =>
+                match parse_pkts ta, parse_pkts tb with
+                | Some a, Some b =>
+                    let nworkers := N.to_nat nw in
+                    let r := g_run k nworkers (N.to_nat cp) a b in
+                    out3 (g_line k nworkers r false) (g_line k nworkers r true) false
+                | _, _ => bad end
+            | _, _, _, _ => bad end
+        | _ => bad end
       else bad
   | _ => bad end.
 
@@ -165,6 +235,14 @@ Example run_line_ex2 :
   run_line (bs "Q http 2 8 1 7 s:0:1 u:0:2 g:1:3")
   = bs "calls=3 queued=3 dropped=0 disp=3 drop=0 wd=0,0 results=2 law=ok" ++ tab ::
     bs "calls=3 queued=3 dropped=0 disp=3 drop=0 wd=0,0 results=2 law=ok" ++ tab :: bs "0".
+Proof. vm_compute. reflexivity. Qed.
+
+(* worker 0 analyses s:0:1 with the consumer alive; after `/` s:0:2 is queued, worker 0 exits, the two later
+   packets for it are refused and counted; worker 1 stays alive (u yields nothing) *)
+Example run_line_ex3 :
+  run_line (bs "G tcp 2 512 s:0:1 / s:0:2 u:0:3 u:1:70 s:0:4 u:1:71")
+  = bs "calls=6 out=QQDQDQ disp=4 drop=2 wd=2,0 resA=1 gone=10 law=ok" ++ tab ::
+    bs "calls=6 out=QQDQDQ disp=4 drop=2 wd=2,0 resA=1 gone=10 law=ok" ++ tab :: bs "0".
 Proof. vm_compute. reflexivity. Qed.
 
 Require Extraction.
